@@ -316,6 +316,9 @@ class Run:
                                  for _, _, v in cands)
                     if static[2] != best[2]:
                         self.tags.add("handover-decided-by-inherited-priority")
+                d = self.inherit_depth(best[2])
+                if d >= 2 and len(cands) >= 2 and best[0] != self.owns[best[2]]:
+                    self.tags.add(f"handover-inherited-through-chain-{min(d, 3)}")
                 if best[2] != w:
                     self.fail("handover-order-after-giveup" if self.giveups else "handover-order",
                               f"lock {k} handed to worker {w} (eff {fr(self.eff(w))}, arrival "
@@ -767,6 +770,40 @@ def gen_inflight_case(rng):
             env.append([n, "cancel", i])
     env.sort(key=lambda a: a[0])
     return {"loop": loop, "nlocks": 1, "nevents": 1 if use_ev else 0, "workers": ws, "env": env}
+
+
+def gen_chain_contended_case(rng, mode="C12"):
+    """Directed shape for C12 (also valid for C11): a chain over n = 2..3 locks taken in ascending
+    order - the top task holds L(n-1); task i holds L(i) and is queued on L(i+1); an urgent task
+    arrives last on L0, so its priority has to travel through the whole chain *while every link is
+    already queued* - plus 1..2 competitors of intermediate urgency queued on locks of the chain
+    (always one on the top lock).  When the top lock is released it must go to the chain task
+    (effective priority inherited through 2..3 locks), not to the competitor."""
+    n = rng.choice([2, 3, 3])
+    loop = rng.choice(["stock", "prio"])
+    pad = lambda k: [["sleep"]] * k  # noqa: E731
+    ws = []
+    hold_n = n + rng.randint(5, 9)
+    ws.append({"kind": "P", "pri": rng.choice(["5", "3", "LOW", "2", "1"]),
+               "script": [["acq", n - 1]] + pad(hold_n) + [["rel"]]})
+    for i in range(n - 2, -1, -1):
+        ws.append({"kind": "P", "pri": rng.choice(["1", "2", "3", "5", "LOW", "1/2"]),
+                   "script": pad(n - 1 - i) + [["acq", i], ["acq", i + 1]] + pad(rng.randint(0, 1))
+                   + [["rel"], ["rel"]]})
+    ws.append({"kind": "P", "pri": rng.choice(["-5", "-2", "HIGH", "-3/2"]),
+               "script": pad(n + rng.randint(1, 3)) + [["acq", 0], ["rel"]]})
+    locks = [n - 1] + [rng.randrange(n) for _ in range(rng.randint(0, 1))]
+    for k in locks:
+        kind = "P" if mode == "C11" else rng.choice("PPPT")
+        ws.append({"kind": kind, "pri": rng.choice(["0", "NORMAL", "-1", "1/2", "0"]),
+                   "script": pad(rng.randint(1, n + 2)) + [["acq", k]] + pad(rng.randint(0, 1)) + [["rel"]]})
+    head, rest = ws[:1], ws[1:]
+    if rng.random() < 0.5:
+        rng.shuffle(rest)
+    env = []
+    if mode == "C12" and rng.random() < 0.15:
+        env.append([rng.randint(3, 4 * n + 6), "cancel", rng.randrange(1, len(ws))])
+    return {"loop": loop, "nlocks": n, "nevents": 0, "workers": head + rest, "env": env}
 
 
 def gen_chain_case(rng):
